@@ -214,6 +214,9 @@ let run_meta line =
        let keys = List.concat (List.map (fun m -> m.m_key @ [n_of_int 10]) ms) in
        let v = match meta_value_for ws s key with Some v -> hex_of_bytes v | None -> "NULL" in
        Printf.sprintf "1 %d %s %s" (int_of_nat e) (hex_of_bytes keys) v)
+  | ["U"; h; k; v] ->
+    (* the text after mmd_string_update_metavalue_for_key *)
+    hex_of_bytes (meta_update is_whitespace_or_line_ending (bytes_of_hex h) (bytes_of_hex k) (bytes_of_hex v))
   | _ -> "?"
 
 (* ---------- anchors: "<body>|<fdefs>|<gdefs>|<cdefs>", items F<d> G<d> C<d> N<d> separated by ',', definitions by ';'
